@@ -66,6 +66,10 @@ pub use crate::internal::{Entries, Entry, Stream, Version};
 #[macro_use]
 mod internal;
 
+/// Verification hooks (simulated clock); only present with `--cfg cfb_verif`.
+#[cfg(cfb_verif)]
+pub use crate::internal::verif as verif_hooks;
+
 //===========================================================================//
 
 /// Opens an existing compound file at the given path in read-only mode.
@@ -1076,6 +1080,10 @@ impl<F: Read + Write + Seek> CompoundFile<F> {
     /// Sets the modified time for the object at the given path to now.  Has no
     /// effect when called on the root storage.
     pub fn touch<P: AsRef<Path>>(&mut self, path: P) -> io::Result<()> {
+        #[cfg(cfb_verif)]
+        if let Some(now) = crate::internal::verif::clock_override() {
+            return self.set_modified_time(path, now);
+        }
         self.set_modified_time(path, web_time::SystemTime::now())
     }
 
